@@ -30,15 +30,29 @@ def vertical_distance_plane_value(equations, points):
     return points[:, :1] - plane_values
 
 
-def hull_distance_plane_value(equations, points, tolerance):
-    d = vertical_distance_plane_value(equations, points)
+def vertical_distance_homogeneous(equations, points):
+    # the same offset with the points in homogeneous coordinates: (p, 1) . (n, b) = p.n + b
+    homogeneous = np.column_stack((points, np.ones(len(points))))
+    return (homogeneous @ equations.T) / equations[:, 0]
+
+
+def hull_distance_of(d, n_points, tolerance):
+    # hull_distance for a given matrix of vertical offsets
     below = np.any(d < -tolerance, axis=1)
-    out = np.zeros(len(points))
+    out = np.zeros(n_points)
     out[~below] = np.min(d[~below], axis=1)
     neg = d.copy()
     neg[d > 0] = -np.inf
     out[below] = np.max(neg[below], axis=1)
     return out
+
+
+def hull_distance_plane_value(equations, points, tolerance):
+    return hull_distance_of(vertical_distance_plane_value(equations, points), len(points), tolerance)
+
+
+def hull_distance_homogeneous(equations, points, tolerance):
+    return hull_distance_of(vertical_distance_homogeneous(equations, points), len(points), tolerance)
 
 
 def hull_distance_pointwise(equations, points, tolerance):
@@ -75,3 +89,8 @@ def dch_score_samples_plane_value(X, y, low_dim_idx, equations, tolerance):
 def dch_score_samples_pointwise(X, y, low_dim_idx, equations, tolerance):
     pts = np.hstack((y.reshape(-1, 1), X[:, low_dim_idx]))
     return hull_distance_pointwise(equations, pts, tolerance).reshape(y.shape)
+
+
+def dch_score_samples_homogeneous(X, y, low_dim_idx, equations, tolerance):
+    pts = np.hstack((y.reshape(-1, 1), X[:, low_dim_idx]))
+    return hull_distance_homogeneous(equations, pts, tolerance).reshape(y.shape)
